@@ -302,6 +302,28 @@ def compileCommand (key : String) (args : List String) : IO Bool := do
     | none => IO.println "CS rejected"
     | some m => printEntries "CS" (m.entries.map fun e => ((txt e.1.1, txt e.1.2), e.2))
     pure true
+  | "CSTORE", [buf, inp, listed, jobs] =>
+    -- CSTORE <buffer> <input buffer> <"-" | "L" ++ comma separated job numbers> <job:loc|job:_ , ...>
+    let nums (t : String) : List Nat := (t.splitOn ",").filter (· ≠ "") |>.map String.toNat!
+    let js : List (Nat × Option Nat) := ((jobs.splitOn ",").filter (· ≠ "")).map fun e =>
+      match e.splitOn ":" with
+      | [j, "_"] => (j.toNat!, none)
+      | [j, l] => (j.toNat!, some l.toNat!)
+      | _ => (0, none)
+    let l : Option (List Nat) := if listed == "-" then none else some (nums (listed.drop 1).toString)
+    let body := " ".intercalate ((Compile.initStore inp.toNat! js buf.toNat! l).map toString)
+    IO.println (if body.isEmpty then "CB" else "CB " ++ body)
+    pure true
+  | "COUT", kind :: comp :: entries =>
+    -- COUT <m|t> <component id (hex)> <component name (hex)>=<token> ...
+    let names := if kind == "m" then Compile.machineOutageNames (unhex comp.toList) else Compile.transportOutageNames
+    let es : List (Compile.Text × String) := entries.filterMap fun e =>
+      match e.splitOn "=" with
+      | [n, t] => some (unhex n.toList, t)
+      | _ => none
+    let body := " ".intercalate (Compile.outagesFor names es)
+    IO.println (if body.isEmpty then "CO" else "CO " ++ body)
+    pure true
   | "NEWID", ids =>
     IO.println s!"CI {Compile.newId (ids.map String.toNat!)}"
     pure true
